@@ -27,7 +27,7 @@ Fam(name, kind, sp, vk, sv, ek, mk, clr, prb, pp, mo, mh) ==
   [name |-> name, kind |-> kind, setpaths |-> sp, valkinds |-> vk, variants |-> sv, editkeys |-> ek,
    mutkeys |-> mk, clear |-> clr, probe |-> prb, ppaths |-> pp, maxops |-> mo, maxh |-> mh]
 
-TV == {"child", "parent"}
+TV == {"child", "parent", "parent0"}
 \*            name         kind     set paths       values  set_state  edit keys      mutate keys  clear probe paths   ops handles
 F_dict_w2   == Fam("dict_w2",   "dict",  Range(PP_ab),   VK_all, {"dict"}, {"a","b"},     {"a","b"}, TRUE, TRUE, PP_ab,  2, 1)
 F_dict_r3   == Fam("dict_r3",   "dict",  SP_tiny,        VK_SL,  {"dict"}, {"a"},         {"a"},     TRUE, TRUE, PP_ab,  3, 1)
